@@ -26,10 +26,29 @@ def build_and_serialise(w):
         cls = getattr(X, convert_to_xml_class_name(w['element']))
         args = () if w.get('value') is None else (w['value'],)
         e = cls(*args, **w.get('attrs', {}))
-        for name, val in w.get('children', []):
-            c = getattr(X, convert_to_xml_class_name(name))
-            e.add_child(c(val) if val is not None else c())
-        return 'ok:' + e.to_string()
+        def make(spec):
+            # [name, value] or [name, value, attrs, children]
+            c = getattr(X, convert_to_xml_class_name(spec[0]))
+            kw = spec[2] if len(spec) > 2 else {}
+            k = c(spec[1], **kw) if spec[1] is not None else c(**kw)
+            for sub in (spec[3] if len(spec) > 3 else []):
+                k.add_child(make(sub))
+            return k
+        for spec in w.get('children', []):
+            e.add_child(make(spec))
+        out = 'ok:' + e.to_string()
+        if w.get('write'):
+            # file I/O is part of "build, validate and serialise": each thread writes ITS document to its own path
+            # (both paths in one directory of this forked child) and reads it back
+            import tempfile
+            d = os.path.join(tempfile.gettempdir(), 'mxv_c20_%d' % os.getpid())
+            os.makedirs(d, exist_ok=True)
+            path = os.path.join(d, w['write'])
+            e.write(path)
+            with open(path, 'rb') as f:
+                out += '|file:' + f.read().decode('utf-8', 'replace')
+            os.unlink(path)
+        return out
     except Exception as ex:   # noqa: BLE001 - the outcome (type + message) is the observation
         return 'exc:%s:%s' % (type(ex).__name__, str(ex)[:200])
 
@@ -152,7 +171,10 @@ def explore(spec):
     if spec.get('max_k') and len(ks) > spec['max_k']:
         # deterministic thinning: every stride-th line, window rotated by 'offset' (the seed)
         stride = -(-len(ks) // spec['max_k'])
+        tail = [k for k in ks if k > n - 80] if wa.get('write') else []
         ks = ks[(spec.get('offset', 0) % stride)::stride]
+        # a workload that writes its file does so in its last lines: those are never thinned away
+        ks = sorted(set(ks) | set(tail))
     bad = []
     hung = 0
     nontrivial = 0
